@@ -9,6 +9,8 @@ sys.path.insert(0, os.path.dirname(os.path.abspath(__file__)))
 os.environ.setdefault("PYTHONHASHSEED", "0")
 
 import warnings
+import logging
+logging.disable(logging.WARNING)
 warnings.simplefilter("ignore")
 import common  # noqa: E402
 
